@@ -28,48 +28,48 @@ func c08Excluded(rel string) bool {
 // c08Sources: nondeterminism sources that library code must not call directly (clock/uuid/random go through
 // gocommon's injectable dates.Now / uuids.NewV4 / random.*).
 var c08Sources = map[string]string{
-	"time.Now":                   "wall clock (use dates.Now)",
-	"time.Since":                 "wall clock",
-	"time.Until":                 "wall clock",
-	"math/rand.Int":              "global RNG",
-	"math/rand.Intn":             "global RNG",
-	"math/rand.Int63":            "global RNG",
-	"math/rand.Int63n":           "global RNG",
-	"math/rand.Int31":            "global RNG",
-	"math/rand.Int31n":           "global RNG",
-	"math/rand.Float64":          "global RNG",
-	"math/rand.Float32":          "global RNG",
-	"math/rand.Perm":             "global RNG",
-	"math/rand.Shuffle":          "global RNG",
-	"math/rand.Uint32":           "global RNG",
-	"math/rand.Uint64":           "global RNG",
-	"math/rand.New":              "private RNG",
-	"math/rand.NewSource":        "private RNG",
-	"math/rand/v2.IntN":          "global RNG",
-	"math/rand/v2.N":             "global RNG",
-	"math/rand/v2.Float64":       "global RNG",
-	"math/rand/v2.Perm":          "global RNG",
-	"math/rand/v2.Shuffle":       "global RNG",
-	"math/rand/v2.Int":           "global RNG",
-	"crypto/rand.Read":           "entropy",
-	"crypto/rand.Int":            "entropy",
-	"os.Getenv":                  "process environment",
-	"os.LookupEnv":               "process environment",
-	"os.Environ":                 "process environment",
-	"os.Hostname":                "host state",
-	"os.Getpid":                  "process state",
-	"os.Getwd":                   "process state",
-	"runtime.NumGoroutine":       "scheduler state",
-	"runtime.NumCPU":             "host state",
-	"runtime.GOMAXPROCS":         "host state",
-	"reflect.Value.MapKeys":      "map order",
-	"reflect.Value.MapRange":     "map order",
-	"sync.Map.Range":             "map order",
-	"maps.Keys":                  "map order (iterator)",
-	"maps.Values":                "map order (iterator)",
-	"maps.All":                   "map order (iterator)",
-	"golang.org/x/exp/maps.Keys":   "map order",
-	"golang.org/x/exp/maps.Values": "map order",
+	"time.Now":                         "wall clock (use dates.Now)",
+	"time.Since":                       "wall clock",
+	"time.Until":                       "wall clock",
+	"math/rand.Int":                    "global RNG",
+	"math/rand.Intn":                   "global RNG",
+	"math/rand.Int63":                  "global RNG",
+	"math/rand.Int63n":                 "global RNG",
+	"math/rand.Int31":                  "global RNG",
+	"math/rand.Int31n":                 "global RNG",
+	"math/rand.Float64":                "global RNG",
+	"math/rand.Float32":                "global RNG",
+	"math/rand.Perm":                   "global RNG",
+	"math/rand.Shuffle":                "global RNG",
+	"math/rand.Uint32":                 "global RNG",
+	"math/rand.Uint64":                 "global RNG",
+	"math/rand.New":                    "private RNG",
+	"math/rand.NewSource":              "private RNG",
+	"math/rand/v2.IntN":                "global RNG",
+	"math/rand/v2.N":                   "global RNG",
+	"math/rand/v2.Float64":             "global RNG",
+	"math/rand/v2.Perm":                "global RNG",
+	"math/rand/v2.Shuffle":             "global RNG",
+	"math/rand/v2.Int":                 "global RNG",
+	"crypto/rand.Read":                 "entropy",
+	"crypto/rand.Int":                  "entropy",
+	"os.Getenv":                        "process environment",
+	"os.LookupEnv":                     "process environment",
+	"os.Environ":                       "process environment",
+	"os.Hostname":                      "host state",
+	"os.Getpid":                        "process state",
+	"os.Getwd":                         "process state",
+	"runtime.NumGoroutine":             "scheduler state",
+	"runtime.NumCPU":                   "host state",
+	"runtime.GOMAXPROCS":               "host state",
+	"reflect.Value.MapKeys":            "map order",
+	"reflect.Value.MapRange":           "map order",
+	"sync.Map.Range":                   "map order",
+	"maps.Keys":                        "map order (iterator)",
+	"maps.Values":                      "map order (iterator)",
+	"maps.All":                         "map order (iterator)",
+	"golang.org/x/exp/maps.Keys":       "map order",
+	"golang.org/x/exp/maps.Values":     "map order",
 	"github.com/google/uuid.New":       "uuid not via uuids generator",
 	"github.com/google/uuid.NewString": "uuid not via uuids generator",
 	"github.com/google/uuid.NewRandom": "uuid not via uuids generator",
@@ -81,18 +81,18 @@ var c08SourceAllowed = map[string]string{}
 // A map range is keyed by function and the range expression; entries are confirmed by reading.
 // value = reason the loop cannot influence output although the generic classifier calls it leaking.
 var c08SafeRanges = map[string]string{
-	"excellent/functions.init/range builtin":   "RegisterXFunction stores XFUNCTIONS[name]: a store keyed by the unique range key",
-	"flows/routers/cases.init/range builtin":   "RegisterXTest stores XTESTS[name] and registers the function under the same unique key",
-	"flows.Contact.MarshalJSON/range c.fields": "FieldValues is keyed by field.Key() (FieldValues.Set is its only writer), so v.field.Key() is the range key itself: a keyed store",
-	"flows/definition.flowAssets.FindByName/range a.cache": "flow names are unique (case-insensitively) within an asset source, the same contract the source.FlowByName fallback relies on; at most one cached flow matches",
-	"flows/definition.languageTranslation.Enumerate/range t":  "no caller inside the module; exposed for hosts that import translations keyed by (uuid, property)",
-	"flows/definition.languageTranslation.Enumerate/range it": "no caller inside the module; see the outer loop",
-	"flows/definition/legacy.migrateRuleSet/range countryConfigs": "currencyAmounts[code] is only ever stored with one amount per code (a different amount for a code already present returns the same constant error whatever the order)",
-	"flows/definition/legacy.migratedLocalization.addTranslationMap/range mapped": "addTranslation stores l[language][uuid][property]: keyed by the unique range key; the base-language value is taken under key equality",
+	"excellent/functions.init/range builtin":                                           "RegisterXFunction stores XFUNCTIONS[name]: a store keyed by the unique range key",
+	"flows/routers/cases.init/range builtin":                                           "RegisterXTest stores XTESTS[name] and registers the function under the same unique key",
+	"flows.Contact.MarshalJSON/range c.fields":                                         "FieldValues is keyed by field.Key() (FieldValues.Set is its only writer), so v.field.Key() is the range key itself: a keyed store",
+	"flows/definition.flowAssets.FindByName/range a.cache":                             "flow names are unique (case-insensitively) within an asset source, the same contract the source.FlowByName fallback relies on; at most one cached flow matches",
+	"flows/definition.languageTranslation.Enumerate/range t":                           "no caller inside the module; exposed for hosts that import translations keyed by (uuid, property)",
+	"flows/definition.languageTranslation.Enumerate/range it":                          "no caller inside the module; see the outer loop",
+	"flows/definition/legacy.migrateRuleSet/range countryConfigs":                      "currencyAmounts[code] is only ever stored with one amount per code (a different amount for a code already present returns the same constant error whatever the order)",
+	"flows/definition/legacy.migratedLocalization.addTranslationMap/range mapped":      "addTranslation stores l[language][uuid][property]: keyed by the unique range key; the base-language value is taken under key equality",
 	"flows/definition/legacy.migratedLocalization.addTranslationMultiMap/range mapped": "addTranslation stores l[language][uuid][property]: keyed by the unique range key; the base-language value is assigned only in the iteration whose key equals baseLanguage",
-	"services/webhooks.service.Call/range s.defaultHeaders": "Header.Set(k, v) under Header.Get(k)==\"\" is a store keyed by the unique range key",
-	"utils/jsonpath.visit/range typed": "filter is a local pure predicate on the key; the only caller in the module (migrations.rewriteTemplates via Transform) passes a tx that rewrites the value in place (typed[k] = tx(...): keyed store) and the translations of the same item (keyed by language, item, property)",
-	"flows/definition/migrations.rewriteTranslations/range localization.Languages()": "tx is the string rewrite handed to RewriteTemplates (pure); the stores go to the per-language translation object",
+	"services/webhooks.service.Call/range s.defaultHeaders":                            "Header.Set(k, v) under Header.Get(k)==\"\" is a store keyed by the unique range key",
+	"utils/jsonpath.visit/range typed":                                                 "filter is a local pure predicate on the key; the only caller in the module (migrations.rewriteTemplates via Transform) passes a tx that rewrites the value in place (typed[k] = tx(...): keyed store) and the translations of the same item (keyed by language, item, property)",
+	"flows/definition/migrations.rewriteTranslations/range localization.Languages()":   "tx is the string rewrite handed to RewriteTemplates (pure); the stores go to the per-language translation object",
 }
 
 func checkC08(p *core.Program, r *core.Report) {
@@ -374,14 +374,14 @@ func sortedImmediately(ci ssa.CallInstruction) bool {
 // map range classifier (AST + types)
 
 type mapClassifier struct {
-	pk  *packages.Package
-	fn  *ast.FuncDecl
-	rs  *ast.RangeStmt
+	pk *packages.Package
+	fn *ast.FuncDecl
+	rs *ast.RangeStmt
 	// elemsAreKeys: the range operand is a slice holding the distinct keys of a map in map order; the
 	// range *value* then plays the role of the unique key
 	elemsAreKeys bool
 	key          types.Object
-	val types.Object
+	val          types.Object
 	// slices appended to in the loop that need a later total sort
 	appended map[types.Object]bool
 	notes    []string
